@@ -87,7 +87,7 @@ def run(res, tier, seed, replay):
         "UBSan findings that are no memory error (invalid enum value loads, signed overflow, shifts) are listed as observations only",
     ]
     vpl.proof_stage(res, LIBS)
-    errdir = os.path.join(vpl.BUILD, "c12-tmp")
+    errdir = os.path.join(vpl.BUILD, "c12-tmp-%d" % os.getpid())
     faildir = os.path.join(vpl.BUILD, "replay", "c12-inputs")
     shutil.rmtree(errdir, ignore_errors=True)
     os.makedirs(errdir, exist_ok=True); os.makedirs(faildir, exist_ok=True)
@@ -98,7 +98,7 @@ def run(res, tier, seed, replay):
     jobs = max(2, vpl.NPROC - 2)
     only = os.environ.get("C12_ONLY", "")     # testing aid: restrict the fork-based oracle to some targets (comma separated)
     extra = ["--only", only] if only else []
-    tmo = 3300 if tier == "quick" else 7000
+    tmo = 10000 if tier == "quick" else 25000   # only a backstop: every case has its own CPU/wall limits
 
     # ---- replay of one stored input -------------------------------------------------------------------------
     if replay and replay.get("replay", {}).get("kind") == "propfail":
@@ -148,6 +148,7 @@ def run(res, tier, seed, replay):
     # ---- evaluate -------------------------------------------------------------------------------------------------
     ncases = 0; tallies = {}; observations = {}
     seen = {}
+    timeout_verdict = {}
     for name, (rc, out, err, dt) in outs.items():
         if not rec_only and ("DONE workers=" not in out or rc != 0 or "WORKERFAIL" in out):
             res.violation("harness-crash", "harness c12 (%s) did not finish: rc=%s %s" % (name, rc, (err or "")[-800:]),
@@ -172,11 +173,14 @@ def run(res, tier, seed, replay):
                         kind, fn = classify("exit(%d)" % rc2, err2); pf["report"] = err2[:6000]
                     else:
                         kind, fn = "plain-" + kind, pf["target"]
-                if kind == "timeout" and pf["saved"] != "-" and os.path.exists(pf["saved"]):
+                if kind == "timeout" and timeout_verdict.get(pf["target"]) == "confirmed":
+                    pass       # this target already has an input that does not finish even alone; no need to repeat every further one
+                elif kind == "timeout" and pf["saved"] != "-" and os.path.exists(pf["saved"]):
                     # a CPU-time limit can be hit by an honest case on an overloaded machine: repeat this one case alone with a
-                    # 30 minute budget; only an input that still does not finish is reported as non-termination
+                    # 20 minute budget; only an input that still does not finish is reported as non-termination
                     rc2, out2, err2, dt2 = run_harness(exe_asan if name == "asan" else exe_plain, ["--one", pf["target"], pf["saved"]],
-                                                       env_asan, 1800)
+                                                       env_asan, 1200)
+                    timeout_verdict[pf["target"]] = "finished" if "RESULT " in out2 else "confirmed"
                     if "RESULT " in out2:
                         res.notes.append("case %s/%s hit the CPU-time limit in the batch but finishes alone in %.0fs wall: not counted" % (pf["target"], pf["mut"], dt2))
                         continue
@@ -208,6 +212,13 @@ def run(res, tier, seed, replay):
         res.notes.append("UBSan observations (no memory error): " + "; ".join("%s x%d" % kv for kv in sorted(observations.items())[:8]))
     # ---- correspondence of the modelled decoders ---------------------------------------------------------------------
     out = outs["asan"][1]
+    lines = out.split("\n")
+    for i, l in enumerate(lines):      # the record writer died: the REC line before its PROPFAIL may be cut in the middle
+        if l.startswith("PROPFAIL decoder-records"):
+            j = i - 1
+            while j >= 0 and not lines[j].startswith("REC "): j -= 1
+            if j >= 0: lines[j] = ""
+    out = "\n".join(lines)
     mism, props = vpl.correspond(res, "C12", out, drv)
     res.cov["evaluations"] += ncases
     res.cov["distinct_nontrivial"] += sum(1 for t in tallies.values() for k in t if k != "DIED")
